@@ -259,7 +259,8 @@ def _find_object_dependency_cycles(ir):
         return find_dependency_errors
     errors = []
     cycles = _find_cycles(dict(dependencies))
-    for cycle in cycles:
+    # Report the cycles in a deterministic order, not in set iteration order.
+    for cycle in sorted(cycles, key=sorted):
         # TODO(bolms): This lists the entire strongly-connected component in a
         # fairly arbitrary order.  This is simple, and handles components that
         # aren't simple cycles, but may not be the most user-friendly way to
@@ -289,7 +290,7 @@ def _find_module_dependency_cycles(ir):
     dependencies = _find_module_import_dependencies(ir)
     cycles = _find_cycles(dict(dependencies))
     errors = []
-    for cycle in cycles:
+    for cycle in sorted(cycles, key=sorted):
         cycle_list = sorted(list(cycle))
         module = ir_util.find_object(cycle_list[0], ir)
         error_group = [
